@@ -423,7 +423,9 @@ func searchMain(t *testing.T, scs []Scenario) int {
 			}
 			kf := knownOpen(findings, v.Prop, v.Key)
 			vals, shrinkRuns := res.Decisions, 0
-			if kf == nil || len(wr.Known) == 0 {
+			if kf == nil {
+				// known findings are reported with their unminimised witness: the
+				// budget goes into searching for violations that are not known
 				vals, shrinkRuns = shrink(t, sc, k, res.Decisions, v.Key)
 			}
 			final := runOne(t, *fProp, *fTier, sc, simrt.NewReplay(vals), true, k)
@@ -532,8 +534,9 @@ func trimTrace(rec []simrt.Decision) []simrt.Decision {
 func shrink(t *testing.T, sc Scenario, idx int, vals []int, key string) ([]int, int) {
 	execs := 0
 	deadline := time.Now().Add(60 * time.Second)
+	spent := func() bool { return execs >= 2000 || time.Now().After(deadline) }
 	fails := func(c []int) bool {
-		if execs >= 2000 || time.Now().After(deadline) {
+		if spent() {
 			return false
 		}
 		execs++
@@ -554,11 +557,11 @@ func shrink(t *testing.T, sc Scenario, idx int, vals []int, key string) ([]int, 
 	if hi < len(cur) && fails(cur[:hi]) {
 		cur = append([]int{}, cur[:hi]...)
 	}
-	for pass := 0; pass < 3; pass++ {
+	for pass := 0; pass < 3 && !spent(); pass++ {
 		before := nonZero(cur)*100000 + len(cur)
 		// 2. zero blocks, then single entries
-		for size := len(cur) / 2; size >= 1; size /= 2 {
-			for i := 0; i+size <= len(cur); i += size {
+		for size := len(cur) / 2; size >= 1 && !spent(); size /= 2 {
+			for i := 0; i+size <= len(cur) && !spent(); i += size {
 				nz := false
 				for _, x := range cur[i : i+size] {
 					if x != 0 {
@@ -578,8 +581,8 @@ func shrink(t *testing.T, sc Scenario, idx int, vals []int, key string) ([]int, 
 			}
 		}
 		// 3. delete blocks
-		for size := 8; size >= 1; size /= 2 {
-			for i := 0; i+size <= len(cur); {
+		for size := 8; size >= 1 && !spent(); size /= 2 {
+			for i := 0; i+size <= len(cur) && !spent(); {
 				c := append(append([]int{}, cur[:i]...), cur[i+size:]...)
 				if fails(c) {
 					cur = c
@@ -590,6 +593,9 @@ func shrink(t *testing.T, sc Scenario, idx int, vals []int, key string) ([]int, 
 		}
 		// 4. lower values
 		for i := range cur {
+			if spent() {
+				break
+			}
 			for cur[i] > 1 {
 				c := append([]int{}, cur...)
 				c[i] = cur[i] / 2
